@@ -211,6 +211,24 @@ fn enumerate() {
         }
         check_mut(&mut t, &desc, &mut found);
     }
+    // rank 4: views whose four axes cannot be merged (every axis sliced out of a larger tensor), so
+    // that OffsetsBase has two *outer* positions: carries between outer dims, nth / skip / split
+    // across them, reverse iteration after a partial front consumption.
+    let r4max = if cfg!(miri) { 2 } else { 3 };
+    for a in 1..=r4max { for b in 1..=r4max { for c in 1..=r4max { for d in 1..=r4max {
+        if cfg!(miri) && a + b + c + d < 8 { continue; }
+        let shape = [a, b, c, d];
+        let big: Vec<usize> = shape.iter().map(|s| s + 1).collect();
+        let n: usize = big.iter().product();
+        let t = Tensor::<i32>::from_data(big.as_slice(), (0..n as i32).collect::<Vec<_>>());
+        let items: Vec<SliceItem> = shape.iter().map(|&s| SliceItem::range(0, Some(s as isize), 1)).collect();
+        let Ok(v) = t.view().try_slice_dyn(items.as_slice()) else { continue };
+        let desc = format!("rank4 shape={shape:?} sliced out of {big:?}");
+        check_view(v.clone(), &desc, &mut found, &mut cases);
+        for perm in [vec![3usize, 2, 1, 0], vec![1, 0, 3, 2], vec![0, 2, 1, 3]] {
+            check_view(v.permuted(perm.as_slice()), &format!("{desc} permuted={perm:?}"), &mut found, &mut cases);
+        }
+    } } } }
     println!("searched {cases} views");
     assert!(found == 0, "{found} checks failed");
 }
